@@ -9,6 +9,10 @@ R3  sample_layer clobbers, sample_layer_filtered updates (masked default, full-t
     indexers); both build the pyramid with the caller's depth / filter / coordinate system
 R4  None-safety of the leaf callback's tile (depth 0)
 R5  leaf-visit stage: handshake / worker protocol (C03 rules on this stage)
+R8  the command line's projection dispatch: every documented --projection type builds the documented sampler over the
+    loaded image's array with the documented planetary / panorama flags; unknown types are refused
+R9  Builder.toast_base samples in the caller's explicit coordinate system, else PLANETARY exactly when is_planet, forwards its
+    own sampler / depth / pyramid I/O and publishes the PLANET data-set type exactly when is_planet
 """
 import ast
 import itertools
@@ -45,7 +49,7 @@ def run(run):
     run.explanation = EXPLANATION
     run.assumptions += ["numpy: a[::-1] reverses the first axis"]
     run.undecided_clauses += ["numerical values produced by the sampler callables"]
-    for r, n in (("C06.R1", 1), ("C06.R2", 1), ("C06.R2b", 4), ("C06.R3", 5), ("C06.R4", 1), ("C06.R5", 4), ("C06.R6", 1), ("C06.R7", 6)):
+    for r, n in (("C06.R1", 1), ("C06.R2", 1), ("C06.R2b", 4), ("C06.R3", 5), ("C06.R4", 1), ("C06.R5", 4), ("C06.R6", 1), ("C06.R7", 6), ("C06.R8", 8), ("C06.R9", 9)):
         run.floor(r, n)
     _r1_r2(run)
     parity.check(run, "C06.R2b", skip_classes=("ToastSampler",))
@@ -56,6 +60,8 @@ def run(run):
     toastgeom.coordsys_forwarding(run, "C06.R3", only_callers=None)
     _r4(run)
     _r5(run)
+    _r8_cli(run)
+    _r9_toast_base(run)
     # updating mode stores the sampler's values through update_into_maskable_buffer: exactly the defined source pixels are
     # copied, per mode (C15's convention rule, evaluated per mode; reported here as a premise)
     from . import C15 as c15
@@ -512,3 +518,305 @@ def _r5(run):
         o.rule = "C06.R5"
         o.kind = (o.kind or "") and ("stage:" + o.kind)
         run.obs.append(o)
+
+
+# ---------------------------------------------------------------------------------------------------------------------
+# R8  the command line's projection dispatch (`toasty tile-allsky --projection P`): for every documented projection type
+#     the sampler that is built is the documented one, over the loaded image's own array, and the planetary / panorama
+#     flags handed to toast_base are the documented ones; depth and parallelism are the user's.
+#     Specification: docs/cli/tile-allsky.rst (projection list) and the sampler layouts decided by C11.
+CLI = "toasty.cli"
+PROJECTIONS = {
+    "plate-carree": ("plate_carree_sampler", False, False),
+    "plate-carree-galactic": ("plate_carree_galactic_sampler", False, False),
+    "plate-carree-ecliptic": ("plate_carree_ecliptic_sampler", False, False),
+    "plate-carree-planet": ("plate_carree_planet_sampler", True, False),
+    "plate-carree-planet-zeroleft": ("plate_carree_planet_zeroleft_sampler", True, False),
+    "plate-carree-planet-zeroright": ("plate_carree_zeroright_sampler", True, False),
+    "plate-carree-panorama": ("plate_carree_sampler", False, True),
+}
+
+
+def _truth_const(t):
+    if t == sym.TRUE or t == ("const", True):
+        return True
+    if t == sym.FALSE or t == ("const", False):
+        return False
+    return None
+
+
+def _r8_cli(run):
+    project = run.project
+    if not project.has(CLI + ".tile_allsky_impl"):
+        run.undecided("C06.R8", None, None, "toasty.cli.tile_allsky_impl not found (anchor vanished)", kind="anchor", construct="tile_allsky_impl")
+        return
+    f = project.fn(CLI + ".tile_allsky_impl")
+    sp = f.params()[0]
+    proj_attr = ("attr", ("sym", sp), "projection")
+    for pname, (want_sampler, want_planet, want_pano) in sorted(PROJECTIONS.items()):
+        ev = sym.make_evaluator(project, CLI, [], inline_local=True, no_inline=("die",))
+        ev.unroll = True
+        unknown = []
+
+        def assume(c, pname=pname, unknown=unknown):
+            if c[0] == "op" and c[1] in ("cmp:Eq", "cmp:NotEq") and len(c[2]) == 2:
+                a, b = c[2]
+                if b == proj_attr:
+                    a, b = b, a
+                if a == proj_attr and b[0] == "const" and isinstance(b[1], str):
+                    return (b[1] == pname) == (c[1] == "cmp:Eq")
+            if c[0] == "op" and c[1] in ("cmp:In", "cmp:NotIn") and len(c[2]) == 2 and c[2][0] == proj_attr:
+                items = c[2][1]
+                if items[0] in ("tuple", "list", "set") and all(x[0] == "const" for x in items[1]):
+                    return (pname in [x[1] for x in items[1]]) == (c[1] == "cmp:In")
+            if proj_attr in atoms_of(c) or sym.contains(c, proj_attr):
+                unknown.append(c)
+            return None
+        ev.assume = assume
+        try:
+            r = ev.run(f.node, args={})
+        except Exception as e:  # evaluator limitation: refuse, do not guess
+            run.undecided("C06.R8", f, None, "--projection %s: cannot evaluate tile_allsky_impl (%s)" % (pname, e), kind="eval", construct="tile_allsky_impl:" + pname)
+            continue
+        tb = [e for e in r.events if e.kind == "call" and e.term[1][0] == "attr" and e.term[1][2] == "toast_base"]
+        facts = dict(projection=pname)
+        cons = "tile_allsky_impl:" + pname
+        if len(tb) != 1 or tb[0].pc:
+            if unknown or tb:
+                run.undecided("C06.R8", f, None, "--projection %s: the call of toast_base is not reached unconditionally under this projection type (%d call(s), "
+                              "condition %s)" % (pname, len(tb), "; ".join(show(c)[:60] for c in (tb[0].pc if tb else unknown))[:200]), kind="dispatch", construct=cons, **facts)
+            else:
+                run.violated("C06.R8", f, None, "--projection %s (documented in docs/cli/tile-allsky.rst) never reaches Builder.toast_base: the projection type is "
+                             "not handled" % pname, kind="projection-unhandled", construct=cons, **facts)
+            continue
+        call = tb[0].term
+        node = tb[0].node
+        b = _bind_toast_base(project, call)
+        if b is None:
+            run.undecided("C06.R8", f, node, "--projection %s: cannot bind the arguments of toast_base" % pname, kind="binding", construct=cons, **facts)
+            continue
+        s = b.get("sampler")
+        ok = True
+        if s is None or s[0] == "ite" or unknown:
+            run.undecided("C06.R8", f, node, "--projection %s: the sampler handed to toast_base is not decided by the projection type alone: %s" % (
+                pname, show(s)[:120] if s else "missing"), kind="sampler", construct=cons, **facts)
+            continue
+        if not (s[0] == "call" and s[1][0] == "sym"):
+            run.undecided("C06.R8", f, node, "--projection %s: sampler %s is not a direct call of a sampler factory" % (pname, show(s)[:120]), kind="sampler", construct=cons, **facts)
+            continue
+        got = s[1][1]
+        if got != want_sampler:
+            if project.has("toasty.samplers." + got) and got in _C11_LAYOUTS():
+                run.violated("C06.R8", f, node, "--projection %s builds %s; the documented layout of this projection type is that of %s" % (pname, got, want_sampler),
+                             kind="wrong-sampler", construct=cons, **facts)
+            else:
+                run.undecided("C06.R8", f, node, "--projection %s builds its sampler with %s, which is not one of the plate-carree factories" % (pname, got), kind="sampler", construct=cons, **facts)
+            ok = False
+        # the sampler reads the loaded image's array, nothing derived from it
+        arr = s[2][0] if s[2] else (dict(s[3]).get("data") if len(s) > 3 else None)
+        if arr is None or not (arr[0] == "call" and arr[1][0] == "attr" and arr[1][2] == "asarray" and not arr[2]):
+            run.undecided("C06.R8", f, node, "--projection %s: the sampler's data %s is not <loaded image>.asarray()" % (pname, show(arr)[:100] if arr else "missing"),
+                          kind="sampler-data", construct=cons, **facts)
+            ok = False
+        for key, want in (("is_planet", want_planet), ("is_pano", want_pano)):
+            v = b.get(key, sym.FALSE)
+            tv = _truth_const(v)
+            if tv is None:
+                run.undecided("C06.R8", f, node, "--projection %s: %s = %s is not a constant under this projection type" % (pname, key, show(v)[:80]), kind="flag", construct=cons, **facts)
+                ok = False
+            elif tv != want:
+                what = ("the tiles are laid out in the %s TOAST coordinate system while the sampler uses the %s longitude convention" % (
+                    ("planetary", "sky") if tv else ("astronomical", "planetary"))) if key == "is_planet" else "the data set is published as the wrong type"
+                run.violated("C06.R8", f, node, "--projection %s hands toast_base %s=%s (documented: %s): %s" % (pname, key, tv, want, what), kind="wrong-" + key, construct=cons, **facts)
+                ok = False
+        # depth / parallelism are the user's own
+        d = b.get("depth")
+        if d is not None and d != ("attr", ("sym", sp), "depth"):
+            try:
+                off = sym.sub(d, ("attr", ("sym", sp), "depth"))
+            except Exception:
+                off = None
+            if sym.is_num(d) or ("attr", ("sym", sp), "depth") not in atoms_of(d) or (off is not None and sym.is_num(off) and num_value(off) != 0):
+                run.violated("C06.R8", f, node, "--projection %s: toast_base is handed depth %s instead of the requested depth" % (pname, show(d)[:60]), kind="depth", construct=cons, **facts)
+            else:
+                run.undecided("C06.R8", f, node, "--projection %s: depth handed on as %s" % (pname, show(d)[:60]), kind="depth", construct=cons, **facts)
+            ok = False
+        if ok:
+            run.holds("C06.R8", f, node, "--projection %s: %s(<image>.asarray()), is_planet=%s, is_pano=%s, depth=settings.depth reach toast_base" % (
+                pname, want_sampler, want_planet, want_pano), **facts)
+    # an unrecognised projection type is refused, never tiled with some default sampler
+    ev = sym.make_evaluator(project, CLI, [], inline_local=True, no_inline=("die",))
+    ev.unroll = True
+
+    def assume_none(c):
+        if c[0] == "op" and c[1] in ("cmp:Eq", "cmp:NotEq") and len(c[2]) == 2 and proj_attr in c[2]:
+            other = c[2][0] if c[2][1] == proj_attr else c[2][1]
+            if other[0] == "const" and isinstance(other[1], str):
+                return c[1] == "cmp:NotEq"
+        if c[0] == "op" and c[1] in ("cmp:In", "cmp:NotIn") and len(c[2]) == 2 and c[2][0] == proj_attr and c[2][1][0] in ("tuple", "list", "set"):
+            return c[1] == "cmp:NotIn"
+        return None
+    ev.assume = assume_none
+    try:
+        r = ev.run(f.node, args={})
+        tb = [e for e in r.events if e.kind == "call" and e.term[1][0] == "attr" and e.term[1][2] == "toast_base"]
+        stops = [e for e in r.events if (e.kind == "raise") or (e.kind == "call" and e.term[1] in (("sym", "die"),) and not e.pc)]
+        if tb and not stops:
+            run.violated("C06.R8", f, tb[0].node, "an unrecognised --projection value is tiled (toast_base is reached) instead of being refused", kind="unknown-projection-tiled",
+                         construct="tile_allsky_impl:<other>")
+        elif stops:
+            run.holds("C06.R8", f, stops[0].node, "an unrecognised --projection value is refused (%s) before any tiling" % show(stops[0].term)[:40])
+        else:
+            run.undecided("C06.R8", f, None, "cannot tell what happens for an unrecognised --projection value", kind="unknown-projection", construct="tile_allsky_impl:<other>")
+    except Exception as e:
+        run.undecided("C06.R8", f, None, "cannot evaluate tile_allsky_impl for an unrecognised projection (%s)" % e, kind="eval", construct="tile_allsky_impl:<other>")
+
+
+def _C11_LAYOUTS():
+    from . import C11 as c11
+    return c11.LAYOUT
+
+
+def _bind_toast_base(project, call):
+    """Parameter binding of a `<builder>.toast_base(...)` call term against Builder.toast_base."""
+    q = "toasty.builder.Builder.toast_base"
+    if not project.has(q):
+        return None
+    params = [p for p in project.fn(q).params() if p != "self"]
+    a = project.fn(q).node.args
+    named = [x.arg for x in a.posonlyargs + a.args + a.kwonlyargs if x.arg != "self"]
+    out = {}
+    pos = call[2]
+    if len(pos) > len(named):
+        return None
+    for k, v in zip(named, pos):
+        out[k] = v
+    for k, v in call[3]:
+        if k is None:
+            return None
+        out[k] = v
+    return out
+
+
+# ---------------------------------------------------------------------------------------------------------------------
+# R9  Builder.toast_base: "the requested coordinate system".  The layer is sampled in the caller's explicit `coordsys` when
+#     one is given and otherwise in PLANETARY exactly when is_planet; sampler, depth and the builder's own pyramid I/O
+#     object reach sample_layer / sample_layer_filtered; the published data-set type is PLANET exactly when is_planet
+#     (WWT renders a PLANET data set with the planetary TOAST convention: a mismatch mirrors the map).
+BLD = "toasty.builder"
+
+
+def _r9_toast_base(run):
+    project = run.project
+    q = BLD + ".Builder.toast_base"
+    if not project.has(q):
+        run.undecided("C06.R9", None, None, "Builder.toast_base not found (anchor vanished)", kind="anchor", construct="Builder.toast_base")
+        return
+    f = project.fn(q)
+    params = f.params()
+    want = {True: "PLANETARY", False: "ASTRONOMICAL"}
+    for planet in (True, False):
+        for pano in ((False,) if planet else (True, False)):
+            ev = sym.make_evaluator(project, BLD, [], inline_local=True, no_inline=("sample_layer", "sample_layer_filtered"))
+            ev.self_class = BLD + ".Builder"
+            ev.no_inline |= {"_check_no_wcs_yet"}
+
+            def assume(c, planet=planet, pano=pano):
+                if c == ("sym", "is_planet"):
+                    return planet
+                if c == ("sym", "is_pano"):
+                    return pano
+                return None
+            ev.assume = assume
+            r = ev.run(f.node)
+            cons = "Builder.toast_base:is_planet=%s" % planet
+            calls = [e for e in r.events if e.kind == "call" and e.term[1] in (("sym", "sample_layer"), ("sym", "sample_layer_filtered"))]
+            if not calls:
+                run.undecided("C06.R9", f, None, "toast_base (is_planet=%s) reaches neither sample_layer nor sample_layer_filtered" % planet, kind="no-sampling", construct=cons)
+                continue
+            popped = [e for e in r.events if e.kind == "call" and e.term[1][0] == "attr" and e.term[1][2] in ("pop", "get") and e.term[1][1] == ("sym", "kwargs")
+                      and e.term[2] and e.term[2][0] == ("const", "coordsys")]
+            for e in calls:
+                callee = e.term[1][1]
+                tq = T + "." + callee
+                b = _bind_fn(project, tq, e.term)
+                if b is None:
+                    run.undecided("C06.R9", f, e.node, "cannot bind the arguments of %s in toast_base" % callee, kind="binding", construct=cons + ":" + callee)
+                    continue
+                cs = b.get("coordsys")
+                star = any(k is None or k == "**" for k, _ in e.term[3])
+                ok = True
+                if cs is None:
+                    if star and not popped:
+                        # the caller's own coordsys travels inside **kwargs; without one the callee's default applies
+                        run.undecided("C06.R9", f, e.node, "toast_base (is_planet=%s): %s gets no coordsys of its own; the callee's default decides" % (planet, callee),
+                                      kind="coordsys-default", construct=cons + ":" + callee)
+                    else:
+                        run.violated("C06.R9", f, e.node, "toast_base (is_planet=%s) calls %s without a coordinate system: the layer is sampled in the callee's default "
+                                     "system whatever was requested" % (planet, callee), kind="coordsys-dropped", construct=cons + ":" + callee)
+                    continue
+                default = cs
+                explicit = False
+                if cs[0] == "call" and cs[1][0] == "attr" and cs[1][2] in ("pop", "get") and cs[1][1] == ("sym", "kwargs") and cs[2] and cs[2][0] == ("const", "coordsys"):
+                    explicit = True
+                    default = cs[2][1] if len(cs[2]) > 1 else sym.NONE
+                if not explicit and popped:
+                    run.violated("C06.R9", f, e.node, "toast_base (is_planet=%s): the caller's explicit coordsys is taken out of the keyword arguments and %s is handed %s "
+                                 "instead" % (planet, callee, show(cs)[:60]), kind="explicit-coordsys-ignored", construct=cons + ":" + callee)
+                    ok = False
+                if default[0] == "attr" and default[2] in ("PLANETARY", "ASTRONOMICAL") and show(default[1]).endswith("ToastCoordinateSystem"):
+                    if default[2] != want[planet]:
+                        run.violated("C06.R9", f, e.node, "toast_base with is_planet=%s samples the layer in the %s system (%s): the tile grid is rotated by 180 degrees "
+                                     "against the sampler's longitude convention" % (planet, default[2], callee), kind="coordsys-of-flag", construct=cons + ":" + callee)
+                        ok = False
+                else:
+                    run.undecided("C06.R9", f, e.node, "toast_base (is_planet=%s): coordinate system %s handed to %s is not one of the two members" % (planet, show(default)[:80], callee),
+                                  kind="coordsys-term", construct=cons + ":" + callee)
+                    ok = False
+                for key, wantv in (("sampler", ("sym", "sampler")), ("depth", ("sym", "depth")), ("pio", ("attr", ("sym", "self"), "pio"))):
+                    v = b.get(key)
+                    if v is None and star:
+                        continue
+                    if v != wantv:
+                        if v is not None and (sym.is_num(v) or not (set(atoms_of(v)) & set(atoms_of(wantv)))):
+                            run.violated("C06.R9", f, e.node, "toast_base hands %s %s=%s instead of its own %s" % (callee, key, show(v)[:60], show(wantv)), kind="forward-" + key,
+                                         construct=cons + ":" + callee)
+                        else:
+                            run.undecided("C06.R9", f, e.node, "toast_base hands %s %s=%s" % (callee, key, show(v)[:60] if v else "nothing"), kind="forward-" + key, construct=cons + ":" + callee)
+                        ok = False
+                if ok:
+                    run.holds("C06.R9", f, e.node, "toast_base (is_planet=%s, is_pano=%s) -> %s(coordsys = explicit or %s; own sampler / depth / pio)" % (planet, pano, callee, want[planet]))
+            # published data-set type
+            st = [e for e in r.events if e.kind == "store" and e.term[0] == "tuple" and e.term[1][0][0] == "attr" and e.term[1][0][2] == "data_set_type"]
+            want_t = "PLANET" if planet else ("PANORAMA" if pano else "SKY")
+            got = [e for e in st if not e.pc]
+            if len(got) == 1 and got[0].term[1][1][0] == "attr":
+                name = got[0].term[1][1][2]
+                if name == want_t:
+                    run.holds("C06.R9", f, got[0].node, "toast_base (is_planet=%s, is_pano=%s) publishes data-set type %s" % (planet, pano, name))
+                else:
+                    run.violated("C06.R9", f, got[0].node, "toast_base with is_planet=%s, is_pano=%s publishes data-set type %s (expected %s): the viewer applies the other "
+                                 "longitude convention to the tiles" % (planet, pano, name, want_t), kind="dataset-type", construct=cons + ":data_set_type")
+            else:
+                run.undecided("C06.R9", f, None, "toast_base (is_planet=%s, is_pano=%s): data-set type not decided by the two flags (%d store(s))" % (planet, pano, len(st)),
+                              kind="dataset-type", construct=cons + ":data_set_type")
+
+
+def _bind_fn(project, q, call):
+    if not project.has(q):
+        return None
+    a = project.fn(q).node.args
+    named = [x.arg for x in a.posonlyargs + a.args]
+    kwonly = [x.arg for x in a.kwonlyargs]
+    out = {}
+    if len(call[2]) > len(named):
+        return None
+    for k, v in zip(named, call[2]):
+        out[k] = v
+    for k, v in call[3]:
+        if k in (None, "**"):
+            continue
+        if k not in named and k not in kwonly and not a.kwarg:
+            return None
+        out[k] = v
+    return out
